@@ -498,11 +498,19 @@ def run(ctx):
     from aiosmpplib.protocol import SubmitSm as _SM, EnquireLink as _EL
     from aiosmpplib.state import PhoneNumber as _PN
     resume_cases = []
-    for j in range(60 if ctx.thorough else 20):
+    fixed_sets = [list(range(2, 12)), [9, 10], [99, 100, 101], [5, 50, 500, 5000], [999999, 1000000]]
+    for j in range((60 if ctx.thorough else 20) + len(fixed_sets)):
         corr = _SC('c13r')
         stored = []
-        for _ in range(rng.choice([0, 0, 1, 2, 5])):
-            n = rng.choice([rng.randint(1, 50), rng.randint(1, 0x7FFFFFFF), 0x7FFFFFFF - rng.randint(0, 3)])
+        if j < len(fixed_sets):
+            # numbers of different digit counts: the largest is not the last in string order
+            for n in fixed_sets[j]:
+                m = _SM(short_message='x', source=_PN('1'), destination=_PN('2'), log_id='r%d' % n)
+                m.sequence_num = n
+                corr._store[str(n)] = (0.0, m)
+                stored.append(n)
+        for _ in range(0 if j < len(fixed_sets) else rng.choice([0, 0, 1, 2, 5, 12, 30])):
+            n = rng.choice([rng.randint(1, 50), rng.randint(1, 12), rng.randint(90, 1100), rng.randint(1, 0x7FFFFFFF), 0x7FFFFFFF - rng.randint(0, 3)])
             m = _SM(short_message='x', source=_PN('1'), destination=_PN('2'), log_id='r%d' % n)
             m.sequence_num = n
             where = rng.choice(['store', 'segment', 'delivery'])
